@@ -32,10 +32,32 @@ template<> struct cact< RS::content >
    }
 };
 
+#if defined( C16_STINGY )
+// an input that grants no more look-ahead than a rule asks for: size( amount ) == min( amount, remaining ), the least a buffered input
+// (buffer_input::size = require( amount ), then the buffered byte count) guarantees. A rule that reads bytes it never requested, or that
+// judges "enough input" from size( 0 ), works on memory inputs only; here it must behave exactly as specified.
+template< tracking_mode T >
+struct c16_in
+   : memory_input< T, eol::C16_EOL, const char* >
+{
+   using base_t = memory_input< T, eol::C16_EOL, const char* >;
+   using base_t::base_t;
+   [[nodiscard]] std::size_t size( const std::size_t amount ) const noexcept
+   {
+      const std::size_t r = base_t::size( amount );
+      return ( amount < r ) ? amount : r;
+   }
+   [[nodiscard]] bool empty() const noexcept { return size( 1 ) == 0; }
+};
+#else
+template< tracking_mode T >
+using c16_in = memory_input< T, eol::C16_EOL, const char* >;
+#endif
+
 template< tracking_mode T, rewind_mode M >
 static void run_rs( const char* b, unsigned long n, unsigned long s, unsigned long* o )
 {
-   memory_input< T, eol::C16_EOL, const char* > in( b, b + n, "" );
+   c16_in< T > in( b, b + n, "" );
    in.bump_in_this_line( s );
    o[ 2 ] = 0; o[ 3 ] = 0; o[ 6 ] = 0;
    o[ 0 ] = vf::vcontrol< RS >::template match< apply_mode::action, M, cact, vf::vcontrol >( in, o );
